@@ -187,11 +187,26 @@ fn offset_to_lsp_position(src: &str, offset: usize, line_number: usize) -> Posit
 /// Convert a Garden position to an LSP range, using `src` (the source
 /// of the file the position is in) to convert byte offsets to UTF-16
 /// columns.
+///
+/// Line numbers are computed from the offsets rather than taken from
+/// `pos`: the end of a Garden position can be on a later line than
+/// its `end_line_number` says (a multi-line string literal, or a fix
+/// that also removes the newline after an expression).
 fn garden_pos_to_lsp_range(src: &str, pos: &GardenPosition) -> Range {
     Range {
-        start: offset_to_lsp_position(src, pos.start_offset, pos.line_number),
-        end: offset_to_lsp_position(src, pos.end_offset, pos.end_line_number),
+        start: offset_to_lsp_position(src, pos.start_offset, line_of_offset(src, pos.start_offset)),
+        end: offset_to_lsp_position(src, pos.end_offset, line_of_offset(src, pos.end_offset)),
     }
+}
+
+/// The zero-based number of the line that contains the byte `offset`
+/// of `src`.
+fn line_of_offset(src: &str, offset: usize) -> usize {
+    let offset = offset.min(src.len());
+    src.as_bytes()[..offset]
+        .iter()
+        .filter(|b| **b == b'\n')
+        .count()
 }
 
 /// Convert a Garden position to an LSP range when the source of the
